@@ -92,13 +92,64 @@ def check(P, R):
     c04.check_reader_premise(P, R, 'C07.c', 'every submitted field arrives: a reader that loses count on a short read truncates the body, so trailing parts disappear')
 
     # ---- a
+    from .c19 import Lin
     rd_ = P.func(f'{MP}:BytesIOProxy.read')
     g, rd = rd_.cfg, rd_.rd
+
+    def _lin(e):
+        if isinstance(e, ast.Constant) and type(e.value) is int:
+            return Lin(e.value)
+        if isinstance(e, ast.Name):
+            return Lin.sym(e.id)
+        if isinstance(e, ast.Attribute) and dotted(e):
+            return Lin.sym(dotted(e))
+        if isinstance(e, ast.BinOp) and isinstance(e.op, (ast.Add, ast.Sub)):
+            l_, r_ = _lin(e.left), _lin(e.right)
+            if l_ is None or r_ is None:
+                return None
+            return l_ + r_ if isinstance(e.op, ast.Add) else l_ - r_
+        if isinstance(e, ast.UnaryOp) and isinstance(e.op, ast.USub):
+            v_ = _lin(e.operand)
+            return None if v_ is None else Lin(0) - v_
+        if isinstance(e, ast.Call) and dotted(e.func) in ('min', 'max') and len(e.args) == 2 and not e.keywords:
+            parts = [_lin(x) for x in e.args]
+            if None in parts:
+                return None
+            return Lin.sym(f'{dotted(e.func)}({", ".join(sorted(repr(x) for x in parts))})')
+        return None
+    # the window position is kept absolute (self._pos starts at `start`) or relative to the start of the part (starts at 0); A is the absolute position
+    init = P.func(f'{MP}:BytesIOProxy.__init__')
+    inits = [st for st in walk_shallow(init.node) if isinstance(st, ast.Assign) and any(dotted(t) == 'self._pos' for t in st.targets)]
+    R.require(len(inits) == 1, 'BytesIOProxy.__init__: expected one store of self._pos')
+    iv = T.expand(init, inits[0].value, init.cfg.node_of_stmt(inits[0])[0])
+    if isinstance(iv, ast.Name) and iv.id == init.params[2]:
+        rep = 'abs'
+        A = Lin.sym('self._pos')
+    elif is_const(iv, 0) and type(iv.value) is int:
+        rep = 'rel'
+        A = Lin.sym('self._st') + Lin.sym('self._pos')
+    else:
+        R.undecided('C07.a', init, inits[0], 'BytesIOProxy: representation of the window position',
+                    f'self._pos starts as `{short(iv)}`: neither the start of the part nor 0')
+        return
+    st_ok = [st for st in walk_shallow(init.node) if isinstance(st, ast.Assign) and any(dotted(t) == 'self._st' for t in st.targets)
+             and isinstance(st.value, ast.Name) and st.value.id == init.params[2]]
+    R.ob('C07.a', init, inits[0], bool(st_ok), text=f'window position kept {"absolute" if rep == "abs" else "relative to the start of the part"}; it starts at the start of the part',
+         detail='' if st_ok else 'self._st is not the start of the part', nontrivial=False)
+
+    def lin_at(fn, e, at):
+        return _lin(T.expand(fn, e, at))
     src_reads = T.calls_to(rd_, 'self._src.read')
     R.require(src_reads, 'BytesIOProxy.read: no read of the source')
-    rem_defs = [d for n in g.nodes for d in rd.gen.get(n, []) if d.kind == 'assign' and src(d.value).replace(' ', '') == 'self._end-self._pos']
-    R.require(rem_defs, 'BytesIOProxy.read: remainder `self._end - self._pos` not computed')
+    want_rem = Lin.sym('self._end') - A
+    rem_defs = [d for n in g.nodes for d in rd.gen.get(n, []) if d.kind == 'assign' and d.value is not None and lin_at(rd_, d.value, n) == want_rem]
+    R.require(rem_defs, 'BytesIOProxy.read: remainder `self._end - <position>` not computed')
     rem = rem_defs[0].name
+    advs_all = [n for n in g.nodes if n.kind == 'stmt' and isinstance(n.ast, (ast.AugAssign, ast.Assign)) and
+                any(dotted(t) == 'self._pos' for t in ([n.ast.target] if isinstance(n.ast, ast.AugAssign) else n.ast.targets))]
+    # the remainder is measured before the position moves
+    R.ob('C07.a', rd_, rem_defs[0].stmt, not any(g.can_reach(a_, rem_defs[0].node) for a_ in advs_all), text=f'{rem} = end of the part - position, before the position moves',
+         detail='the remainder is computed after the position was advanced', nontrivial=False)
     for c in src_reads:
         cn = g.node_of_stmt(c)[0]
         a = c.args[0] if c.args else None
@@ -117,15 +168,22 @@ def check(P, R):
                 det = ''
         R.ob('C07.a', rd_, c, ok, detail=det, why='a window that reads past its end returns bytes of the next part (delimiter, headers, other fields)')
         # seek to own position immediately before
-        seeks = [g.node_of_stmt(x)[0] for x in walk_shallow(rd_.node) if isinstance(x, ast.Call) and dotted(x.func) == 'self._src.seek'
-                 and x.args and src(x.args[0]) == 'self._pos']
+        seek_calls = [x for x in walk_shallow(rd_.node) if isinstance(x, ast.Call) and dotted(x.func) == 'self._src.seek' and x.args
+                      and lin_at(rd_, x.args[0], g.node_of_stmt(x)[0]) == A]
+        seeks = [g.node_of_stmt(x)[0] for x in seek_calls]
         ok = bool(seeks) and g.must_pass(g.entry, cn, seeks)
-        R.ob('C07.a', rd_, c, ok, text='self._src.seek(self._pos) before the read', detail='' if ok else
+        R.ob('C07.a', rd_, c, ok, text='self._src.seek(<own position>) before the read', detail='' if ok else
              'the shared source is read at whatever position another window left it', key_extra='seek')
         # position advanced by the same size; the seek uses the position before the advance
         advs = [n for n in g.nodes if n.kind == 'stmt' and isinstance(n.ast, ast.AugAssign) and dotted(n.ast.target) == 'self._pos'
                 and isinstance(n.ast.op, ast.Add) and isinstance(a, ast.Name) and src(n.ast.value) == a.id]
-        ok = len(advs) == 1 and seeks and g.must_pass(g.entry, advs[0], seeks) and not any(g.can_reach(advs[0], s) for s in seeks)
+        # (the position the seek uses may have been computed into a local first: that, too, before the advance)
+        pos_reads = list(seeks)
+        for x in seek_calls:
+            for (_e, dn) in rd.closure(x.args[0], g.node_of_stmt(x)[0]):
+                if dn is not None and dn in g.nodes:
+                    pos_reads.append(dn)
+        ok = len(advs) == 1 and len(advs_all) == 1 and seeks and g.must_pass(g.entry, advs[0], seeks) and not any(g.can_reach(advs[0], s) for s in pos_reads)
         R.ob('C07.a', rd_, advs[0].ast if advs else c, ok, text='self._pos += <size read> after the seek', detail='' if ok else
              'the window position is not advanced by exactly the size read (or is advanced before the seek)', key_extra='advance')
     # non-positive remainder -> b''
@@ -187,9 +245,21 @@ def check(P, R):
             o_ = [x for x in v.args if src(x) != 'self._st'][0]
             return isinstance(o_, ast.Call) and dotted(o_.func) == 'min' and any(src(x) == 'self._end' for x in o_.args)
         return False
+    def clamped_rel(v, at):
+        # v in [0, self._end - self._st]: an absolute position of the window minus the start of the part, or min(<non-negative>, length of the part)
+        if isinstance(v, ast.Name):
+            defs = srd.at(at, v.id)
+            return bool(defs) and all(d.value is not None and clamped_rel(d.value, d.node) for d in defs)
+        if isinstance(v, ast.BinOp) and isinstance(v.op, ast.Sub) and src(v.right) == 'self._st':
+            return clamped(v.left, at)
+        if isinstance(v, ast.Call) and dotted(v.func) == 'min' and len(v.args) == 2:
+            for a_, b_ in (v.args, v.args[::-1]):
+                if _lin(T.expand(sk, b_, at, keep=tuple(sk.params))) == Lin.sym('self._end') - Lin.sym('self._st') and nonneg(a_, at):
+                    return True
+        return False
     R.require(pos_stores, 'BytesIOProxy.seek: no store of self._pos')
     for n in pos_stores:
-        ok = clamped(n.ast.value, n)
+        ok = clamped(n.ast.value, n) if rep == 'abs' else clamped_rel(n.ast.value, n)
         R.ob('C07.a', sk, n.ast, ok, text=f'`{short(n.ast)}`: the new position lies in [start of the part, end of the part]', detail='' if ok else
              f'`{short(n.ast)}` can move the window position outside [self._st, self._end] (e.g. a seek before the start of the upload is clamped to the start of the whole '
              f'body, or not at all): read() then returns the preceding delimiter, headers and other parts\' bytes',
@@ -367,8 +437,12 @@ def check(P, R):
          'the upload wrapper does not get (file, name, filename, headers) of the same part')
     # key = item.name
     keyd = [d for n in g.nodes for d in rd.gen.get(n, []) if d.kind == 'assign' and src(d.value) == f'{item}.name' and T._inside(d.stmt, lp.body)]
-    R.ob('C07.c', po, keyd[0].stmt if keyd else lp, bool(keyd), text='key = item.name', detail='' if keyd else 'the collection key is not the field name', nontrivial=False)
-    key = keyd[0].name if keyd else 'key'
+    # ... or the field name used as it is
+    direct = [x for x in walk_shallow(lp) if isinstance(x, ast.Subscript) and isinstance(x.ctx, ast.Store) and dotted(x.value) == post_n
+              and src(x.slice) == f'{item}.name']
+    R.ob('C07.c', po, keyd[0].stmt if keyd else (direct[0] if direct else lp), bool(keyd or direct), text='key = item.name',
+         detail='' if keyd or direct else 'the collection key is not the field name', nontrivial=False)
+    key = keyd[0].name if keyd else (f'{item}.name' if direct else 'key')
     # seen-before decided by membership
     seen_tests = []
     for n in g.nodes:
